@@ -453,28 +453,31 @@ def run(ctx, cases_override=None):
     new = [tuple(x.split("|")) for x in mm.group(1).split(";") if x] if mm else []
     knw = [tuple(x.split("|")) for x in mm.group(2).split(";") if x] if mm else []
     demonstrated = set((f.get("sig") or {}).get("struct") for f in fails)
-    for a, b, why in new:
-        if a in demonstrated: continue
-        fails.append(dict(kind="broken-theorem", case="%s field/enumerator %s: %s" % (a, b, why), has_input=False, impl=None, model=why,
-                          op="issues", size=10 ** 6, sig=dict(struct=a, field=b, why=why),
-                          theorem="C14_A2 (decision procedure on the regenerated tables): %s %s %s" % (a, b, why)))
-    # known findings: reproduce each on the implementation
-    seen = set()
-    for a, b, why in knw:
-        if (a, b) in seen: continue
-        seen.add((a, b))
-        if a in PROBES:
+    def demonstrate(a, b, why):
+        """reproduce an issue of the decision procedure on the implementation; True when a concrete case was added"""
+        if a in PROBES and why in ("import-export-kind-mismatch", "exported-member-shadowed-by-get-argument"):
             ok, err = probe_compile(ctx, PROBES[a], NOGET_TAGS.get(a, "x"))
             st["oracle_checks"] += 1
-            if ok: continue           # compiles now: nothing to report (the translator will stop listing it as well)
+            if ok: return False
             fails.append(dict(kind="counterexample", case="compile probe: %s::get(ptree&, \"\") on a default-constructed struct" % a,
                               impl=err, model=why, op="probe", size=1, sig=dict(struct=a, field=b),
                               theorem="C14: every parameter is written back by the parameter export"))
-        elif why == "accepted-by-check_params-but-never-read" and demo_accepted(ctx, a, b, fails, why):
-            pass
-        elif why == "default-constructor-leaves-member-uninitialised" and demo_uninit(ctx, a, b, fails, why):
-            pass
-        else:
+            return True
+        if why == "accepted-by-check_params-but-never-read": return demo_accepted(ctx, a, b, fails, why)
+        if why == "default-constructor-leaves-member-uninitialised": return demo_uninit(ctx, a, b, fails, why)
+        return False
+    seen = set()
+    for a, b, why in new:
+        if (a, b) in seen: continue
+        if a in demonstrated or demonstrate(a, b, why): seen.add((a, b)); continue
+        fails.append(dict(kind="broken-theorem", case="%s field/enumerator %s: %s" % (a, b, why), has_input=False, impl=None, model=why,
+                          op="issues", size=10 ** 6, sig=dict(struct=a, field=b, why=why),
+                          theorem="C14_A2 (decision procedure on the regenerated tables): %s %s %s" % (a, b, why)))
+    # known findings: reproduce each on the implementation (static excerpt when it cannot be built here)
+    for a, b, why in knw:
+        if (a, b) in seen: continue
+        seen.add((a, b))
+        if not demonstrate(a, b, why):
             fails.append(dict(kind="counterexample", case="static: " + static_excerpt(ctx["repo"], data, a), impl=why, model=None, op="static",
                               size=1, sig=dict(struct=a, field=b), theorem="C14_A2 " + why))
 
